@@ -139,6 +139,28 @@ def XMODEL():
     return None
 
 
+def ABS2REL():
+    """a spec moved from an absolute to a relative path: the IOManager files it under (no model, relative path); an
+    occupied relative location of the model is not seen, and the spec that lived there is lost while still bound"""
+    m, A, B, C = _reset()
+    d = tempfile.mkdtemp(prefix="mxv_c18w_")
+    try:
+        d1, d2 = _df(1), _df(2)
+        A.new_pandas("w", "iox/c0.csv", d1, "csv")
+        B.new_pandas("y", os.path.join(d, "h0.csv"), d2, "csv")
+        try:
+            m.get_spec(d2).path = "iox/c0.csv"
+        except ValueError:
+            return None
+        try:
+            m.get_spec(d1)
+        except ValueError:
+            return "the move onto the occupied location iox/c0.csv was accepted; M.A.w is still bound but its spec is gone"
+    finally:
+        shutil.rmtree(d, ignore_errors=True)
+    return None
+
+
 def DOTDOT():
     """'d/../d/f.xlsx' is taken as a location different from 'd/f.xlsx': two specs, one file"""
     m, A, B, C = _reset()
